@@ -600,10 +600,12 @@ func verifHosts(l *roundRobinLoadBalancer) []*Host { return l.hosts.Load().([]*H
 // Every pool - including the pools created later for hosts that join the cluster - carries the
 // session's prepared cache, so that its connections can re-prepare statements.
 //@ loop proxycore.connectPoolNoFail #1
+//@   invariant not-cancelled: pool != nil && pool.cancel == cancel && !cancelled(cancel)
 //@   invariant 0 <= i && pool != nil && fresh(pool) && pool.connsMu != nil && pool.logger != nil && len(pool.conns) == config.NumConns && pool.config.ReconnectPolicy == config.ReconnectPolicy
 
 //@ func proxycore.connectPoolNoFail [C08]
 //@   requires config.ReconnectPolicy != nil && config.NumConns >= 0
+//@   ensures own-cancel: fresh(result.cancel) && !cancelled(result.cancel)
 //@   ensures result != nil && fresh(result) && result.connsMu != nil && result.preparedCache == config.PreparedCache && result.config.Version == config.Version && result.config.Keyspace == config.Keyspace && result.config.Compression == config.Compression
 //@   modifies nothing
 
@@ -952,11 +954,26 @@ func verifHosts(l *roundRobinLoadBalancer) []*Host { return l.hosts.Load().([]*H
 //@   ensures files-only-pools: !$poolFiledNil
 //@   modifies *
 
-//@ func proxycore.Session.OnEvent [C17, C01]
+// C16 ("newly listed nodes start receiving requests"): a host that is announced gets a pool filed under its
+// key; if one is filed already - the host was announced before - that pool stays as it is and the pool
+// just made for nothing is the one that is cancelled.
+//@ func proxycore.Session.OnEvent [C17, C01, C16]
 //@   local $poolFiledNil bool = false
+//@   local $adFiled bool = false
+//@   local $adLoaded bool = false
+//@   local $adActual interface{} = nil
+//@   local $adNew interface{} = nil
+//@   local $adWasCancelled bool = false
+//@   local $adCancels int = 0
+//@   local $adCancelledNew bool = true
 //@   requires s != nil && s.config.ReconnectPolicy != nil && s.config.NumConns >= 0
 //@   before sync.Map.LoadOrStore#* set $poolFiledNil = $poolFiledNil || arg2 == nil || valof(arg2) == 0
+//@   after sync.Map.LoadOrStore#1 set $adFiled = true; $adLoaded = result1; $adActual = result0; $adNew = arg2; $adWasCancelled = cancelled(as(result0, *connPool).cancel)
 //@   ensures files-only-pools: !$poolFiledNil
+//@   ensures announced-host-gets-a-pool: typeis(event, *AddEvent) ==> $adFiled [C16]
+//@   before context.CancelFunc#* set $adCancels = $adCancels + 1; $adCancelledNew = $adCancelledNew && typeis($adNew, *connPool) && recv == as($adNew, *connPool).cancel
+//@   ensures filed-pool-left-alone: typeis(event, *AddEvent) ==> ($adLoaded ==> $adCancelledNew) && (!$adLoaded ==> $adCancels == 0) [C16]
+//@   ensures superfluous-pool-cancelled: typeis(event, *AddEvent) && $adLoaded && typeis($adNew, *connPool) && as($adNew, *connPool) != nil && $adNew != $adActual ==> cancelled(as($adNew, *connPool).cancel) [C16]
 //@   modifies *
 
 // ConnectCluster: the control goroutine is started only on a cluster object that satisfies what
